@@ -51,8 +51,10 @@ Definition model_run := reduce dM d_fit1 d_fitm d_pred1 d_predm.
 Definition impl_run := option (list fitcall * list (Z * xrow) * list Z * list Z).
 
 Inductive case :=
+  (* make_reduction(..).fit(y, X, fh) [.update(news, update_params=False)] .predict(fh, Xfut);
+     news = per variable the appended observations ([] each when there is no update) *)
   | CRun (st : strategy) (sc : scitype) (y : list Z) (xs : list (list Z)) (wl : Z) (fh : list Z)
-         (xfut : list (list Z)) (off : Z) (o : impl_run)
+         (xfut : list (list Z)) (news : list (list Z)) (off : Z) (o : impl_run)
   (* direct call of _sliding_window_transform(y, wl, fh, X, scitype) *)
   | CSwt (sc : scitype) (y : list Z) (xs : list (list Z)) (wl : Z) (fh : list Z)
          (o : option (list (list Z) * list xrow))
@@ -77,8 +79,9 @@ Definition swt_view (sc : scitype) (y : list Z) (xs : list (list Z)) (wl : Z) (f
 
 Definition check (c : case) : bool :=
   match c with
-  | CRun st sc y xs wl fh xfut off o =>
-      agree_run (model_run st sc y xs wl fh xfut) (forecast_index off (zlen y) fh) o
+  | CRun st sc y xs wl fh xfut news off o =>
+      agree_run (model_run st sc y xs wl fh xfut news)
+                (forecast_index off (zlen y + zlen (hd [] news)) fh) o
   | CSwt sc y xs wl fh o =>
       match swt_view sc y xs wl fh, o with
       | Err, None => true
